@@ -488,6 +488,8 @@ def write_evidence(pid, spec, tier, seed, results, selftests, violations, inconc
     if only_filter:   # partial run (--only): never overwrite the registered evidence with a subset
         json.dump(ev, open(os.path.join(OUTROOT, 'evidence', pid + '.partial.json'), 'w'), indent=1); return
     json.dump(ev, open(os.path.join(OUTROOT, 'evidence', pid + '.json'), 'w'), indent=1)
+    if tier == 'thorough':   # a later quick run rewrites <id>.json; keep the last full thorough run next to it
+        json.dump(ev, open(os.path.join(OUTROOT, 'evidence', pid + '.thorough.json'), 'w'), indent=1)
 
 def do_replay(path):
     rec = json.load(open(path))
